@@ -10,7 +10,8 @@ use super::{um_model, um_oracle};
 use crate::run::{ImplOut, Suite};
 
 /// qualifiers that discriminate between mechanisms and therefore stay in the signature
-const KEEP: [&str; 11] = [
+const KEEP: [&str; 15] = [
+    "-failed", "-lang", "-arrays", "-over-cse",
     "-into-empty", "-over-existing", "-over-spill", "-over-array", "-over-empty-styled", "-hidden",
     "-full-col", "-full-row", "-cells", "-copy", "-cut",
 ];
@@ -27,8 +28,12 @@ pub fn normalise_sig(sig: &str) -> String {
         if is_kind {
             let kind: String = p.split('-').next().unwrap_or("").to_string();
             let mut q = String::new();
+            // `-lang` only discriminates for the op kinds whose replay re-parses recorded text
+            let reparses = ["SetUserInput", "SetUserArrayFormula", "AutoFill", "Paste", "NewDefinedName", "UpdateDefinedName", "DeleteDefinedName", "AddCf", "UpdateCf"]
+                .iter()
+                .any(|x| kind.starts_with(x));
             for k in KEEP {
-                if p.contains(k) {
+                if p.contains(k) && (k != "-lang" || reparses) {
                     q.push_str(k);
                 }
             }
@@ -42,7 +47,24 @@ pub fn normalise_sig(sig: &str) -> String {
             out.push(p.to_string());
         }
     }
-    let joined = out.join(":");
+    let mut joined = out.join(":");
+    if (joined.starts_with("c01:undo:") || joined.starts_with("c02:undo:") || joined.starts_with("c02:redo:")) && joined.ends_with(":cell-value") {
+        // ONLY computed values differ (all contents equal): an evaluation effect (history-dependent values on
+        // cycles / next to spills, F01m), not a property of the op kind that happened to be undone
+        let head: Vec<&str> = joined.split(':').take(2).collect();
+        joined = format!("{}:any:cell-value-only", head.join(":"));
+    }
+    if [":cf", ":link", ":col", ":row"].iter().any(|c| joined.ends_with(c)) {
+        // whether arrays live on the sheet only matters for what cells hold, not for links / CF / attributes
+        joined = joined.replace("-arrays", "");
+    }
+    if joined.starts_with("c03:diverged:") && joined.contains("-failed") {
+        // the diverging command is a call that returned Err after changing the primary: the defect is that
+        // op's C04 finding (reported there with its op kind); here one signature per class of observable
+        let class = joined.rsplit(':').next().unwrap_or("");
+        let lang = if joined.contains("-lang") { "-lang" } else { "" };
+        joined = format!("c03:diverged:any-failed{lang}:{class}");
+    }
     if joined.starts_with("c03:") {
         // replica divergence: which observable of the cell differs first depends on pool indices;
         // one class for the whole cell
@@ -57,7 +79,19 @@ pub fn normalise_sig(sig: &str) -> String {
 fn normalise(mut o: ImplOut) -> ImplOut {
     o.oracle.truncate(1);
     for (sig, detail) in o.oracle.iter_mut() {
-        let n = normalise_sig(sig);
+        let mut n = normalise_sig(sig);
+        if (n.starts_with("c01:") || n.starts_with("c02:")) && n.ends_with(":cell-content") {
+            // direction of the first differing cell: `lost` (was there, is absent after the undo/redo),
+            // `gained` (was absent, is there now) or `changed`: a lost array is not a reappearing spill
+            if let Some(i) = detail.find(" := ") {
+                let rest = &detail[i + 4..];
+                let entry = rest.split(" | ").next().unwrap_or("");
+                let mut ab = entry.splitn(2, " => ");
+                let (a, b) = (ab.next().unwrap_or("").trim(), ab.next().unwrap_or("").trim());
+                let b = b.split(" ;; ").next().unwrap_or("").trim();
+                n.push_str(if a == "<absent>" { ":gained" } else if b == "<absent>" { ":lost" } else { ":changed" });
+            }
+        }
         if n != *sig {
             *detail = format!("[{}] {}", sig, detail);
             *sig = n;
